@@ -57,7 +57,21 @@ def gen_case(rng):
     for _ in range(rng.randrange(2, 12)):
         x = rng.random()
         i = rng.choice(keys)
-        if x < 0.6:
+        if x < 0.12 and len(keys) >= 3:
+            # an exchange i -> j during which other exchanges / ticks complete (GossipOnceWith holds no lock across
+            # its round trip): the inner operations run after j computed its ack and before i processes it
+            j = rng.choice([k for k in keys if k != i])
+            inner = []
+            for _ in range(rng.randrange(1, 4)):
+                k = rng.choice([q for q in keys if q != i])        # i itself is blocked in its round trip
+                if rng.random() < 0.25:
+                    inner.append([k, k])                              # tick of k
+                else:
+                    l = rng.choice([q for q in keys if q != k and (q != j or rng.random() < 0.3)] or [i])
+                    if l != k:
+                        inner.append([k, l])
+            ops.append({"op": "exchange_n", "i": i, "j": j, "inner": inner})
+        elif x < 0.6:
             j = rng.choice([k for k in keys if k != i])
             ops.append({"op": "exchange", "i": i, "j": j})
         elif x < 0.75:
@@ -97,6 +111,8 @@ def c_cluster(dump):
 def c_op(o):
     if o["op"] == "exchange":
         return "Exchange %s %s" % (cN(o["i"]), cN(o["j"]))
+    if o["op"] == "exchange_n":
+        return "ExchangeN %s %s %s" % (cN(o["i"]), cN(o["j"]), clist([cpair(cN(k), cN(l)) for k, l in o.get("inner", [])]))
     if o["op"] == "tick":
         return "Tick %s" % cN(o["i"])
     if o["op"] == "set_state":
@@ -120,7 +136,7 @@ def harness_violation(case, r):
 def to_coq(case, r):
     steps = [cpair(c_op(o), c_cluster(d)) for o, d in zip(case["ops"], r["outs"])]
     init = r["init"] if case.get("kind") == "lifecycle" else init_dump(case)
-    return cpair(c_cluster(init), clist(steps))
+    return "(%s, %s, %s)" % (c_cluster(init), clist(steps), clist([c_cluster(m) for m in (r.get("mids") or [])]))
 
 
 def nontrivial(case, r):
